@@ -88,7 +88,7 @@ func runMutant(id, patch string) (failed []string, errs []string, err error) {
 	for _, r := range ld.missingObligations(id) {
 		all = append(all, r.Obls...)
 	}
-	work := filepath.Join(verifDir, ".work", id+"-mutant")
+	work := filepath.Join(verifDir, ".work", fmt.Sprintf("%s-mutant-%d", id, os.Getpid())) // concurrent runs must not share query files
 	os.RemoveAll(work)
 	defer os.RemoveAll(work)
 	cfg := &SolverCfg{WorkDir: work, Timeout: 10e9, Parallel: 16}
